@@ -165,6 +165,13 @@ def r_dosimplex(idx, rep, rule="R-DOSIMPLEX"):
             names = [n.id for n in ast.walk(st.value) if isinstance(n, ast.Name) and n.id in vec and vec[n.id][0] == "normal"]
             if len(names) == 1:
                 side[st.targets[0].id] = vec[names[0]][1]
+    # a side comparison that is used in place (no flag name) still counts as a side test of its face
+    named = {id(st.value) for st in iter_stmts(t.node.body) if isinstance(st, ast.Assign) and isinstance(st.value, ast.Compare)}
+    for cmp_ in ast.walk(t.node):
+        if isinstance(cmp_, ast.Compare) and id(cmp_) not in named:
+            names = [n.id for n in ast.walk(cmp_) if isinstance(n, ast.Name) and n.id in vec and vec[n.id][0] == "normal"]
+            if len(names) == 1:
+                side["<" + u(cmp_)[:40] + ">"] = vec[names[0]][1]
     rr = idx.func(L + "::_rearrange_simplex_to_triangle")
     call = [c for c in ast.walk(t.node) if isinstance(c, ast.Call) and call_name(c) == "_rearrange_simplex_to_triangle"]
     if len(side) != 3 or len(call) != 1:
@@ -181,6 +188,11 @@ def r_dosimplex(idx, rep, rule="R-DOSIMPLEX"):
                     # body: this test failed ; orelse: it passed
                     leaf(st.body, flag, passed)
                     walk(st.orelse, failed, passed + [flag])
+                elif isinstance(tst, ast.Name):
+                    flag = bind.get(tst.id, tst.id)
+                    # the canonical two-armed form (core.index._CanonIf): body = the test passed, orelse = it failed
+                    leaf(st.orelse, flag, passed)
+                    walk(st.body, failed, passed + [flag])
                 else:
                     rep.unknown(rule, rr.key + "|test %s" % u(tst), rr.where, "test not of the form `not <flag>`")
             # plain statements at this level belong to the final else
